@@ -12,7 +12,7 @@
    Histories are arbitrary operation lists: [run T I D F G M ops st]. *)
 From Coq Require Import List Bool NArith Permutation.
 Import ListNotations.
-From Verif Require Import PsbtModel PsbtLemmas PsbtReach PsbtAtomic PsbtIdem PsbtIdemOld PsbtValid PsbtOrder PsbtUpdate PsbtPkh PsbtExamples.
+From Verif Require Import PsbtModel PsbtLemmas PsbtReach PsbtAtomic PsbtIdem PsbtIdemOld PsbtValid PsbtOrder PsbtUpdate PsbtPkh PsbtTimelock PsbtExamples.
 
 (* ---- never alters inputs that are already final *)
 Theorem C14_final_monotone : forall T I D F G M (ops : list op) (st : psbt) (i : nat) (a : pinput),
@@ -342,3 +342,20 @@ Example C14_update_twice_example :
   map i_taporigins (p_inputs (r [Update 0 3%N; Update 0 2%N] st)) = [[(1%N, 20%N); (4%N, 21%N)]] /\
   map i_taporigins (p_inputs (r [AddTapOrigin 0 1%N 99%N; Update 0 2%N] st)) = [[(1%N, 20%N); (4%N, 21%N)]].
 Proof. exact update_twice_example. Qed.
+
+(* ---- the satisfier's time-lock answers are BIP65 / BIP68+112 on (version, nLockTime, THIS
+   input's nSequence); tabulated against PsbtInputSatisfier::check_after / check_older *)
+Theorem C14_check_after_is_bip65 : forall lock_time seq n,
+  psbt_check_after lock_time seq n = negb (bip65_fails lock_time seq n).
+Proof. exact psbt_check_after_is_bip65. Qed.
+Print Assumptions C14_check_after_is_bip65.
+
+Theorem C14_check_older_is_bip112 : forall version seq n,
+  psbt_check_older version seq n = negb (bip112_fails version seq n).
+Proof. exact psbt_check_older_is_bip112. Qed.
+Print Assumptions C14_check_older_is_bip112.
+
+Example C14_check_older_versions :
+  (forall seq n, psbt_check_older 1 seq n = false) /\ psbt_check_older 3 10 10 = true /\
+  (forall lock_time n, psbt_check_after lock_time seq_final n = false).
+Proof. exact (conj check_older_version_1 (conj (proj1 check_older_version_3) check_after_own_sequence)). Qed.
